@@ -768,7 +768,7 @@ func (em *emitter) emitSelector(v *ast.Selector, reg int8, dstType reflect.Type)
 	}
 
 	// Scriggo-defined package functions.
-	if ident, ok := v.Expr.(*ast.Identifier); ok {
+	if ident, ok := v.Expr.(*ast.Identifier); ok && em.isPackageName(ident) {
 		if sf, ok := em.fnStore.availableScriggoFn(em.pkg, ident.Name+"."+v.Ident); ok {
 			if reg == 0 {
 				return
